@@ -75,7 +75,7 @@ func init() {
 				nl = 8
 			}
 			for i := 0; i < nl; i++ {
-				cs = append(cs, core.MkCase("C17", "largesum", i, seed, nil))
+				cs = append(cs, core.MkCase("C17", "largesum", i, seed, map[string]int{"hours": i % 2}))
 			}
 			return cs
 		},
@@ -378,8 +378,11 @@ func c17Aggregate(c *core.Case, o *core.Outcome) {
 func c17LargeSum(c *core.Case, o *core.Outcome) {
 	r := c.Rng("large")
 	stats := &progress.Stats{}
+	var lp map[string]int
+	c.Params(&lp)
 	d := int64(1_000_000_000) + int64(1+r.IntN(999))
-	if r.IntN(2) == 0 {
+	if lp["hours"] == 1 {
+		// hour-long iterations: the accumulated sum passes 2^62 ns and stays below 2^63
 		d = int64(3_600_000_000_000) + int64(1+r.IntN(999))
 	}
 	n := 15_000_000 + r.IntN(1_000_000)
@@ -390,8 +393,10 @@ func c17LargeSum(c *core.Case, o *core.Outcome) {
 	}
 	var life c17Ref
 	for i := 1; i <= n; i++ {
-		stats.Record(metrics.SuccessResult, d)
-		life.add(d)
+		// (durations vary by a few nanoseconds so that the exact mean is not a round number)
+		di := d + int64(i%7)
+		stats.Record(metrics.SuccessResult, di)
+		life.add(di)
 		if i%every == 0 || i == n {
 			var s progress.Snapshot
 			if i == n {
